@@ -3,7 +3,10 @@
 //! Writes protocol lines (see lean/Driver/Proto.lean) to stdout.
 mod app;
 mod common;
+mod etrade;
+mod fmv;
 mod ledger;
+mod pages;
 mod rng;
 mod splitneutral;
 mod summary;
@@ -114,6 +117,75 @@ fn main() {
                     cur.clear();
                 } else if !cur.is_empty() {
                     cur.push(l.to_string());
+                }
+            }
+            if n == 0 {
+                eprintln!("no replayable case on stdin");
+                std::process::exit(2);
+            }
+        }
+        "etrade" => {
+            let root = etrade::scratch_root();
+            for (i, c) in etrade::recorded().iter().enumerate() {
+                let mut s = String::new();
+                etrade::run_case(&format!("ER{}", i), c, &root, &mut s);
+                w.write_all(s.as_bytes()).unwrap();
+            }
+            let mut r = rng::Rng::new(seed);
+            for i in 0..count {
+                let mut cr = r.fork();
+                let c = etrade::gen_case(&mut cr);
+                let mut s = String::new();
+                etrade::run_case(&format!("E{}-{}", seed, i), &c, &root, &mut s);
+                w.write_all(s.as_bytes()).unwrap();
+            }
+            let _ = std::fs::remove_dir_all(&root);
+        }
+        "etrade-blowup" => {
+            etrade::blowup(count as u32);
+            return;
+        }
+        "fmv" => {
+            for (i, c) in fmv::corpus().iter().enumerate() {
+                let mut s = String::new();
+                fmv::run_case(&format!("FC{}", i), c, &mut s);
+                w.write_all(s.as_bytes()).unwrap();
+            }
+            let mut r = rng::Rng::new(seed);
+            for i in 0..count {
+                let mut cr = r.fork();
+                let c = fmv::gen_case(&mut cr);
+                let mut s = String::new();
+                fmv::run_case(&format!("F{}-{}", seed, i), &c, &mut s);
+                w.write_all(s.as_bytes()).unwrap();
+            }
+        }
+        "fmv-replay" => {
+            let mut n = 0;
+            for c in common::read_cases_stdin() {
+                let mut s = String::new();
+                if fmv::replay(&c, &mut s) {
+                    w.write_all(s.as_bytes()).unwrap();
+                    n += 1;
+                }
+            }
+            if n == 0 {
+                eprintln!("no replayable case on stdin");
+                std::process::exit(2);
+            }
+        }
+        "pages" => {
+            let exh = arg_val(&args, "--exh", if count >= 2000 { 4 } else { 3 }) as u32;
+            pages::run_family(seed, count, exh, &mut w);
+        }
+        "pages-replay" => {
+            let mut docs = pages::Docs::new();
+            let mut n = 0;
+            for c in common::read_cases_stdin() {
+                let mut s = String::new();
+                if pages::replay(&c, &mut docs, &mut s) {
+                    w.write_all(s.as_bytes()).unwrap();
+                    n += 1;
                 }
             }
             if n == 0 {
